@@ -1,6 +1,6 @@
 import json, os
 from .. import common, mir
-from ..rules import c04, c15
+from ..rules import c04, c05, c15
 
 
 def run(tier, replay=None):
@@ -19,4 +19,6 @@ def run(tier, replay=None):
         c04.run_isi(rep, crate, cfg)
         c15.run_lookup_schema(rep, crate, cfg)
         c04.run_constants(rep, crate, cfg, pins)
+        # the symbols that are encoded are the RFC's sub-block interleaving of the block (C05-R1..R4)
+        c05.run(rep, crate, cfg)
     return rep.finish("other", "formula templates", "./check C04 %s" % tier)
